@@ -120,7 +120,7 @@ def _routes(dendropy, doc, fmt, opts, shared, grid, text, path):
                 pass
 
     ev = {"action": "Routes", "fmt": fmt, "shared": shared, "doc": doc, "opts": opts, "grid": grid,
-          "pool": pool.items, "ref": {"raised": "", "colls": []}, "calls": [], "arrays": [],
+          "pool": pool.items, "ref": {"raised": "", "alt": "", "colls": []}, "calls": [], "arrays": [],
           "mpool": mpool.items, "mref": [], "mcalls": []}
 
     # ---- reference: the data-set route
@@ -132,7 +132,11 @@ def _routes(dendropy, doc, fmt, opts, shared, grid, text, path):
         return colls, mats
     raised, ds = _outcome(lambda: dendropy.DataSet.get(data=text, schema=fmt, **dict(nskw, **kw)))
     if raised:
+        # the data-set route failed: does the tree-list route deliver from the same text?  (if it fails too the
+        # document itself is not valid under this option set: a machinery failure of the harness, see run())
+        r2, _tl = _outcome(lambda: dendropy.TreeList.get(data=text, schema=fmt, **dict(nskw, **kw)))
         ev["ref"]["raised"] = raised
+        ev["ref"]["alt"] = r2
         return ev
     colls, mats = ds_views(ds)
     ev["ref"]["colls"] = colls
@@ -314,6 +318,12 @@ def run(ctx):
     for k in range(nrand):
         cases.extend(_cases_for(x_c13.random_doc(rng), 100000 + k, ctx.work, ctx.seed, "random", True))
     driven = ctx.drive(cases, run_case, chunksize=4)
+    invalid = [(c, e[0]["ref"]) for c, e in driven if e[0]["ref"]["raised"] and e[0]["ref"]["alt"]]
+    if invalid:
+        c, r = invalid[0]
+        raise core.MachineryError("%d rendered document(s) are rejected by the data-set route AND the tree-list route (%s / %s): the harness "
+                                  "renderer produced an invalid document, e.g. %s" % (len(invalid), r["raised"], r["alt"],
+                                                                                      core.dumps({k: v for k, v in c.items() if k != "tmp"})[:1500]))
     ctx.judge("Trace_ReadRoutes", driven, batch=300 if ctx.quick else 600, heap="2g")
     ncalls = 0
     under = 0
